@@ -223,15 +223,15 @@ Section SolverDiscipline.
     - (* slice *)
       destruct (Nat.ltb i (List.length (sc_solver_of sc))) eqn:Hlt; [|discriminate]. inversion Hsc; subst sc'; clear Hsc.
       destruct (nth_error ps i) as [p|] eqn:Hp; [|discriminate].
-      destruct (slice cond p vs) as [q|] eqn:Hq; [|discriminate]. inversion Hv; subst ps'; clear Hv.
+      destruct (slice cond vars p vs) as [q|] eqn:Hq; [|discriminate]. inversion Hv; subst ps'; clear Hv.
       unfold h_slice in H.
       destruct (nth_error (o_paths h) i) as [hp|] eqn:Hhp; [|discriminate].
       destruct (hp_sliced hp); [discriminate|].
-      destruct (d_collect _ _ _ _) as [[cs d1] S1]. inversion H; subst h'; clear H.
+      destruct (d_slice_loop _ _ _ _ _ _ _ _ _) as [[[sl d1] S1]|]; [|discriminate]. inversion H; subst h'; clear H.
       unfold SIh. cbn [o_paths o_solvers].
       assert (Hsq : solver q = solver p).
       { unfold slice in Hq. destruct (sliced p); [discriminate|].
-        destruct (get_related cond p vs) as [rel m']. inversion Hq; reflexivity. }
+        destruct (slice_loop _ _ _ _ _ _ _ _) as [[sl' m']|]; [|discriminate]. inversion Hq; reflexivity. }
       apply (SI_ext cond (o_paths h) _ _ (psolver ps)); [exact HSI | apply upd_length | |].
       + intros j hpj Ej. destruct (Nat.eq_dec j i) as [->|Hne].
         * rewrite Hhp in Ej. inversion Ej; subst hpj. eexists.
